@@ -20,7 +20,7 @@ Lemma mod_2K_K K x : 0 < K -> (x mod (2 * K)) mod K = x mod K.
 Proof.
   intros HK.
   rewrite (N.mul_comm 2 K), N.mod_mul_r by lia.
-  rewrite N.add_comm, N.mul_comm, N.mod_add by lia.
+  rewrite (N.mul_comm K ((x / K) mod 2)), N.mod_add by lia.
   apply N.mod_mod. lia.
 Qed.
 
@@ -35,12 +35,13 @@ Proof.
   { replace b with (a + (b - a)) in He by lia.
     rewrite N.add_mod in He by lia.
     pose proof (N.mod_upper_bound a M ltac:(lia)) as Ua.
-    pose proof (N.mod_upper_bound (b - a) M ltac:(lia)) as Ud.
-    rewrite (N.mod_small (b - a) M) in * by lia.
+    assert (Hs : (b - a) mod M = b - a) by (apply N.mod_small; lia).
+    rewrite Hs in He |- *.
     destruct (N.lt_ge_cases (a mod M + (b - a)) M) as [L|L].
-    - rewrite N.mod_small in He by lia. lia.
+    - rewrite (N.mod_small (a mod M + (b - a)) M) in He by lia. lia.
     - replace (a mod M + (b - a)) with ((a mod M + (b - a) - M) + 1 * M) in He by lia.
-      rewrite N.mod_add in He by lia. rewrite N.mod_small in He by lia. lia. }
+      rewrite N.mod_add in He by lia.
+      rewrite (N.mod_small (a mod M + (b - a) - M) M) in He by lia. lia. }
   rewrite N.mod_small in Hd by lia. lia.
 Qed.
 
@@ -132,7 +133,7 @@ Proof.
   assert (Hb : b mod cmod k = (a mod cmod k + (b - a)) mod cmod k).
   { rewrite N.add_mod_idemp_l by lia. f_equal. lia. }
   destruct (N.lt_ge_cases (a mod cmod k + (b - a)) (cmod k)) as [L|L].
-  - rewrite N.mod_small in Hb by exact L. rewrite Hb.
+  - rewrite (N.mod_small (a mod cmod k + (b - a)) (cmod k)) in Hb by exact L. rewrite Hb.
     replace (a mod cmod k + (b - a) + cmod k - a mod cmod k) with ((b - a) + 1 * cmod k) by lia.
     rewrite N.mod_add by lia. apply N.mod_small. exact Hd.
   - assert (Hb' : b mod cmod k = a mod cmod k + (b - a) - cmod k).
